@@ -231,7 +231,7 @@ class ListTree:
         query = ref_name + filter_
         for entry in self.list():
             if entry.name == 'INBOX':
-                if self._matches(query.upper(), 'INBOX'):
+                if query.isascii() and self._matches(query.upper(), 'INBOX'):
                     yield entry
             elif self._matches(query, entry.name):
                 yield entry
